@@ -557,7 +557,7 @@ class USD:
 
             if cmd_position is not None:
                 sign1 = utils.sign(cmd_position - new_position)
-                if sign1 != sign0:
+                if sign0 == 0 or sign1 != sign0:
                     self.current_position = cmd_position
                     self.cmd_position = None
                     self.running = False
